@@ -113,7 +113,7 @@ package httpserver
 //@   at call net/http.Redirect assert [location_host_custom_port] (redirPort != "" && !splitFails()) ==> arg2 == "https://" + net.JoinHostPort(hostPart(), redirPort) + r.URL.RequestURI()
 //@   ensures [written] result0 == 0
 
-//@ unit make_servers_tls_off props=C15 filter=`httpserver\.httpContext\)\.MakeServers$`
+//@ unit make_servers_tls_off frames=on props=C15 filter=`httpserver\.httpContext\)\.MakeServers$`
 //@ // "sites declared as plain HTTP never have TLS enabled": after MakeServers no site on the HTTP port or with scheme http has TLS on
 //@ extern strconv.Itoa
 //@   pure
@@ -140,12 +140,13 @@ package httpserver
 //@   loop 1 invariant forall(k, 0, len(h.siteConfigs), sc(k) != nil && sc(k).TLS != nil && sc(k).TLS.Manager != nil)
 //@   loop 1 invariant [processed_plain_sites_off] forall(k, 0, #i, plainHTTP(k) ==> !sc(k).TLS.Enabled)
 
-//@ unit match_host props=C01 filter=`vhostTrie\)\.matchHost$`
+//@ unit match_host frames=on props=C01 filter=`vhostTrie\)\.matchHost$`
 //@ spec nparts(s string, sep string) int
 //@ spec part(s string, sep string, j int) string
 //@ spec cand(host string, k int) string
 
 //@ extern strings.Split
+//@   ensures fresh(result)
 //@   ensures len(result) == nparts(s, sep) && nparts(s, sep) >= 1
 //@   ensures forall(j, 0, len(result), result[j] == part(s, sep, j))
 
@@ -194,7 +195,7 @@ package httpserver
 //@   loop 3 invariant idxOffset > 0 ==> s[idxStart + idxOffset - 1] == '}'
 //@   loop 3 decreases len(s) - idxStart - idxOffset
 
-//@ unit plaintext_redirects props=C15 filter=`httpserver\.makePlaintextRedirects$|hostHasOtherPort$`
+//@ unit plaintext_redirects frames=on props=C15 filter=`httpserver\.makePlaintextRedirects$|hostHasOtherPort$`
 //@ extern strconv.Itoa
 //@   pure
 
